@@ -81,16 +81,27 @@ def half_up(fr):
 
 def copy_semantics(REC, fname, f, W, args, expected_fn):
     """copy=True: argument untouched, result does not share memory; copy=False: result is the argument"""
-    X = W.copy()
-    try:
-        r = f(X, *args, copy=True)
-        ok = bool(np.array_equal(X, W)) and not np.shares_memory(r, X)
-        X2 = W.copy()
-        r2 = f(X2, *args, copy=False)
-        ok2 = (r2 is X2) and close(X2, np.asarray(r, dtype=float), rtol=1e-12, atol=0)
-        REC.check(PROP, fname, 'copy_semantics', ok and ok2, {'W': W, 'args': list(args), 'copy_true_ok': ok, 'copy_false_ok': ok2})
-    except Exception as e:  # noqa
-        REC.check(PROP, fname, 'copy_semantics', False, {'W': W, 'args': list(args), 'exception': repr(e)[:200]})
+    n = len(W)
+
+    def layouts():
+        yield 'C', W.copy()
+        yield 'F', np.asfortranarray(W)
+        big = np.zeros((2 * n, 2 * n))
+        big[::2, ::2] = W
+        yield 'strided_view', big[::2, ::2]
+        stack = np.zeros((n, n, 3))
+        stack[:, :, 1] = W
+        yield 'stack_slice', stack[:, :, 1]
+    for lname, X in layouts():
+        try:
+            r = f(X, *args, copy=True)
+            ok = bool(np.array_equal(X, W)) and not np.shares_memory(r, X)
+            r2 = f(X, *args, copy=False)
+            ok2 = (r2 is X) and close(np.asarray(X, dtype=float), np.asarray(r, dtype=float), rtol=1e-12, atol=0)
+            REC.check(PROP, fname, 'copy_semantics', ok and ok2, {'W': W, 'args': list(args), 'layout': lname, 'copy_true_ok': ok, 'copy_false_ok': ok2},
+                      ('layout:' + lname,))
+        except Exception as e:  # noqa
+            REC.check(PROP, fname, 'copy_semantics', False, {'W': W, 'args': list(args), 'layout': lname, 'exception': repr(e)[:200]}, ('layout:' + lname,))
 
 
 def run_prop(case, bct, REC):
